@@ -50,7 +50,12 @@ func init() {
 			var items []Item
 			for _, mc := range c.msgCases(ns, c.thorough(), false) {
 				mc := mc
-				items = append(items, Item{ID: "tail:" + mc.ID(), Run: func(c *Ctx) { c07tail(c, mc) }})
+				items = append(items, Item{ID: "tail:" + mc.ID(), Run: func(c *Ctx) { c07tail(c, mc, false) }})
+				if fi := c.frameInfo(mc.Mod, mc.Typ); fi != nil && fi.Alg != "" && mc.N <= 1 && mc.PLen == 0 {
+					// the same with the checksum registry emptied before the decode: what a decoder consumes must not
+					// depend on which services happen to be registered
+					items = append(items, Item{ID: "tail:" + mc.ID() + "/registry=empty", Run: func(c *Ctx) { c07tail(c, mc, true) }})
+				}
 				if mc.N <= 1 {
 					items = append(items, Item{ID: "pair:" + mc.ID(), Run: func(c *Ctx) { c07pair(c, mc) }})
 				}
@@ -263,7 +268,7 @@ func c06(c *Ctx, mc MsgCase, H int) {
 	}
 }
 
-func c07tail(c *Ctx, mc MsgCase) {
+func c07tail(c *Ctx, mc MsgCase, noReg bool) {
 	h := c.newHarness(mc, "canon", 0)
 	e := c.e()
 	s := h.s
@@ -291,11 +296,33 @@ func c07tail(c *Ctx, mc MsgCase) {
 		b.B = Concat2(b.B, tail.S)
 		replay := func(val func(*Term) uint64, j Judge) *ReplayReq {
 			wire := hexOf(evalBytes(A, val)) + hexOf(evalBytes(tail.S, val))
-			return &ReplayReq{Steps: []map[string]any{
+			st := []map[string]any{
 				step("op", "newbuf", "buf", "b", "hex", wire),
 				step("op", "newmsg", "msg", "d", "module", mc.Mod, "type", mc.Typ),
 				step("op", "decode", "msg", "d", "buf", "b"),
-			}, Judge: j}
+			}
+			if noReg {
+				st = append([]map[string]any{step("op", "registry", "ops", []map[string]any{step("op", "Clear")})}, st...)
+				if j.Kind != "panic" {
+					j.Step++
+				}
+			}
+			return &ReplayReq{Steps: st, Judge: j}
+		}
+		if noReg {
+			fn := c.w.fn("codec.Clear")
+			if fn == nil {
+				c.Inconclusive("codec.Clear not found")
+				return
+			}
+			e.pushCall(fs, fn, nil, nil)
+			fin := e.Run(fs)
+			if len(fin) != 1 || fin[0].panicd != "" || fin[0].cut != "" {
+				c.Inconclusive("codec.Clear did not run to a single result")
+				return
+			}
+			fs = fin[0]
+			fs.frames = nil
 		}
 		d := h.freshReceiver(fs)
 		e.pushCall(fs, h.dec, []Value{d, bufPtr}, nil)
